@@ -380,6 +380,7 @@ func init() {
 			_, found := in.p.indexSet(in.bytesContent(a[0].(BytesV)), setOf(sub.litValue()[0]))
 			return mkBool(found)
 		},
+		"strings.Map": stringsMap,
 		"strings.Compare": func(in *Interp, fn *ssa.Function, a []Value) Value {
 			x, y := nfOf(a[0]), nfOf(a[1])
 			if in.p.branch("compare-eq", in.p.strEq(x, y)) {
@@ -1690,4 +1691,121 @@ func sortSliceModel(in *Interp, fn *ssa.Function, a []Value) Value {
 		}
 	}
 	return nil
+}
+
+// stringsMap models strings.Map(f, s). Literal parts are decoded as Go does (invalid UTF-8 bytes become
+// U+FFFD, one byte at a time). For a symbolic atom the mapping function is probed on every ASCII value of the
+// atom's class (concrete calls): if it is the identity on all of them the atom passes unchanged, otherwise the
+// atom is split on "contains a byte the function changes" and expanded byte by byte. Bytes >= 0x80 decode as
+// multi-byte runes or as U+FFFD depending on their neighbours: that sub-domain is over-approximated — the path
+// ends with a candidate violation that is reported only if the native run of the same input violates an
+// assertion; one candidate is restricted to bytes that are never part of valid UTF-8 (0xC0, 0xC1, 0xF5..0xFF).
+func stringsMap(in *Interp, fn *ssa.Function, a []Value) Value {
+	f, ok := a[0].(*Closure)
+	if !ok || f == nil {
+		in.panicGo("runtime error: invalid memory address or nil pointer dereference (nil mapping func)")
+	}
+	call := func(r int64) (int64, bool) {
+		var res Value
+		args := []Value{mkInt(r)}
+		if f.host != nil {
+			res = f.host(in, args)
+		} else {
+			res = in.callFunction(f.fn, args, f.fv)
+		}
+		l := in.p.resLin(in.asLin(res))
+		if !l.isConst() {
+			in.unsupported("strings.Map: mapping function with a symbolic result for a concrete rune")
+		}
+		return l.c, l.c >= 0
+	}
+	emit := func(out NF, r int64) NF {
+		m, keep := call(r)
+		if !keep {
+			return out
+		}
+		return nfCat(out, nfLit(string(rune(m))))
+	}
+	s := in.p.res(nfOf(a[1]))
+	var out NF = NF{}
+	neverValid := setOf(0xC0, 0xC1).or(setRange(0xF5, 0xFF))
+	for _, sg := range s {
+		if sg.atom == 0 {
+			for _, r := range sg.lit {
+				out = emit(out, int64(r))
+			}
+			continue
+		}
+		at := in.p.atoms[sg.atom]
+		if !at.cls.and(setHigh).empty() {
+			noHigh := &B{k: BInRe, a: NF{sg}, re: reClassStar(at.cls.minus(setHigh))}
+			if in.p.fork("map-high", []*B{noHigh, bNot(noHigh)}) == 0 {
+				in.p.narrow(at, setHigh.not())
+			} else {
+				other := setHigh.minus(neverValid)
+				onlyNever := &B{k: BInRe, a: NF{sg}, re: reClassStar(at.cls.minus(other))}
+				if !at.cls.and(neverValid).empty() && in.p.fork("map-never-valid", []*B{onlyNever, bNot(onlyNever)}) == 0 {
+					in.p.narrow(at, other.not())
+				}
+				in.p.overApprox = true
+				in.p.note("strings.Map over bytes >= 0x80 (rune decoding depends on the neighbours; result over-approximated)")
+				in.p.violate("over-approximation: text with bytes >= 0x80 goes through strings.Map (invalid UTF-8 is rewritten to U+FFFD; result arbitrary in the model)", nil)
+				in.p.abort("end-violated", "strings.Map over non-ASCII bytes")
+			}
+		}
+		at = in.p.atoms[sg.atom]
+		var nonID ByteSet
+		res := map[byte]int64{}
+		for c := 0; c < 0x80; c++ {
+			if at.cls.has(byte(c)) {
+				m, _ := call(int64(c))
+				res[byte(c)] = m
+				if m != int64(c) {
+					nonID.add(byte(c))
+				}
+			}
+		}
+		if nonID.empty() {
+			out = nfCat(out, in.p.res(NF{sg}))
+			continue
+		}
+		if in.p.containsFork("map-changed", at, nonID, &B{k: BInRe, a: NF{sg}, re: reClassStar(at.cls.minus(nonID))}) {
+			in.p.narrow(at, nonID.not())
+			out = nfCat(out, in.p.res(NF{sg}))
+			continue
+		}
+		n := in.concreteInt("map-len", linV(at.lenv))
+		cur := in.p.res(NF{sg})
+		for i := int64(0); i < n; i++ {
+			b := in.p.byteAt(cur, linC(i))
+			if b.atom == 0 {
+				out = emit(out, int64(b.c))
+				continue
+			}
+			ba := in.p.atoms[b.atom]
+			if ba.cls.and(nonID).empty() {
+				out = nfCat(out, b.nf())
+				continue
+			}
+			if in.p.containsFork("map-byte", ba, nonID, &B{k: BInRe, a: b.nf(), re: reClassStar(ba.cls.minus(nonID))}) {
+				in.p.narrow(ba, nonID.not())
+				out = nfCat(out, b.nf())
+				continue
+			}
+			in.p.narrow(ba, nonID)
+			var vals []byte
+			var conds []*B
+			for c := 0; c < 0x80; c++ {
+				if ba.cls.has(byte(c)) && nonID.has(byte(c)) {
+					vals = append(vals, byte(c))
+					conds = append(conds, in.p.strEq(b.nf(), nfLit(string([]byte{byte(c)}))))
+				}
+			}
+			c := vals[in.p.fork("map-value", conds)]
+			if m := res[c]; m >= 0 {
+				out = nfCat(out, nfLit(string(rune(m))))
+			}
+		}
+	}
+	return StrV{out}
 }
